@@ -4,6 +4,7 @@ import json, os
 V = os.path.dirname(os.path.dirname(os.path.abspath(__file__)))
 # property -> (technique, DESIGN section)
 CLAIMED = {
+ "C08": ("rapidcheck-driven lane-by-lane differential test of every SIMDVector<T,ABI> operation against plain scalar code, with guard-page placed loads/stores and all masks", "5/C08"),
  "C01": ("rapidcheck-driven differential test against an exact integer / long-double triple-loop oracle over generated (type,M,K,N,form) instances under every ISA", "5/C01"),
 }
 REASONS_PENDING = "check not built yet in this revision; planned in DESIGN.md section 5"
